@@ -164,6 +164,17 @@ func c14Scenarios(tier string) []*Scenario {
 			add("pair", []Spec{a, b}, []ExeSpec{{Script: slowFail}, {Script: slowOK, Async: true, StartAt: 2}}, standalone)
 		}
 	}
+	// executions classifying joined and wrapped errors through the same conditions at the same time
+	{
+		joined := []Out{{Err: errors.Join(E2, ValErr{1}), Dur: 2}, {Err: fmt.Errorf("w: %w", errors.Join(E3, &PtrErr{2})), Dur: 2}}
+		h := []Cond{{K: "types", T: ValErr{}, Ts: []any{&PtrErr{}}}, {K: "errs", E: E1, Es: []error{E4}}}
+		add("shared-conditions", []Spec{{Kind: KRetry, MaxRetries: 1, Handle: h, Abort: []Cond{{K: "types", T: OtherErr{}}}}}, []ExeSpec{{Script: joined}, {Script: joined, Async: true}})
+		add("shared-conditions", []Spec{{Kind: KFallback, FbV: 9, Handle: h}}, []ExeSpec{{Script: joined[:1]}, {Script: joined[1:2], Async: true}})
+		add("shared-conditions", []Spec{{Kind: KBreaker, FT: 5, FC: 5, BDelay: 20, Handle: h}}, []ExeSpec{{Script: joined[:1]}, {Script: joined[1:2]}})
+	}
+	// randomised delays computed by overlapping executions through one policy
+	add("jitter", []Spec{{Kind: KRetry, MaxRetries: 1, Delay: 6, Jitter: 2}}, []ExeSpec{{Script: slowFail}, {Script: slowFail, Async: true}})
+	add("random-delay", []Spec{{Kind: KRetry, MaxRetries: 1, DelayMin: 2, DelayMax: 6}}, []ExeSpec{{Script: slowFail}, {Script: slowFail, StartAt: 2}})
 	// the same Executor value (not only the same policies) used by overlapping executions
 	sharedExecutor = true
 	for _, a := range cfgs {
